@@ -44,6 +44,41 @@ impl From<Val> for Dynamic {
         }
     }
 }
+// the tuple form of EnforceArgs goes through serde (rhai::serde::to_dynamic): Val serialises to the same
+// string / integer / boolean / map a caller's own types would
+impl serde::Serialize for Val {
+    fn serialize<S: serde::Serializer>(&self, ser: S) -> std::result::Result<S::Ok, S::Error> {
+        use serde::ser::SerializeMap;
+        match self {
+            Val::S(s) => ser.serialize_str(s),
+            Val::I(i) => ser.serialize_i32(*i),
+            Val::B(b) => ser.serialize_bool(*b),
+            Val::M(fs) => {
+                let mut m = ser.serialize_map(Some(fs.len()))?;
+                for (k, v) in fs {
+                    m.serialize_entry(k, v)?;
+                }
+                m.end()
+            }
+        }
+    }
+}
+
+/// enforce through the TUPLE implementation of EnforceArgs (arity 1..=6; other arities through the Vec form)
+pub fn enforce_tuple<E: casbin::CoreApi>(e: &E, v: Vec<Val>) -> casbin::Result<bool> {
+    let mut it = v.clone().into_iter();
+    let mut nx = || it.next().unwrap();
+    match v.len() {
+        1 => e.enforce((nx(),)),
+        2 => e.enforce((nx(), nx())),
+        3 => e.enforce((nx(), nx(), nx())),
+        4 => e.enforce((nx(), nx(), nx(), nx())),
+        5 => e.enforce((nx(), nx(), nx(), nx(), nx())),
+        6 => e.enforce((nx(), nx(), nx(), nx(), nx(), nx())),
+        _ => e.enforce(v),
+    }
+}
+
 fn parse_scalar(s: &str) -> Val {
     let (t, r) = s.split_at(2);
     match t {
@@ -628,6 +663,7 @@ macro_rules! do_step {
             // ---- queries ----
             "?e" => res_bool($e.enforce(parse_vals(f[1]))),
             "?em" => res_bool($e.enforce_mut(parse_vals(f[1]))),
+            "?et" => res_bool(enforce_tuple(&*$e, parse_vals(f[1]))),
             "?ec" => res_bool($e.enforce_with_context(casbin::EnforceContext::new(&dec(f[1])), parse_vals(f[2]))),
             "?c4" => res_bool($e.enforce_with_context(
                 casbin::EnforceContext { r_type: dec(f[1]), p_type: dec(f[2]), e_type: dec(f[3]), m_type: dec(f[4]) },
